@@ -300,6 +300,18 @@ Fixpoint height (t : call) : N :=
 Fixpoint anon_chain (k : nat) : call :=
   match k with O => Call None false [] | S k' => Call None false [anon_chain k'] end.
 
+(* every frame of the tree is named (non-empty schema_name) *)
+Fixpoint all_named (t : call) : bool :=
+  match t with
+  | Call name _ body =>
+      truthy name
+      && (fix go (l : list call) : bool := match l with [] => true | x :: r => all_named x && go r end) body
+  | _ => true
+  end.
+
+(* every declared schema name is a key of parsed_schemas *)
+Definition all_present (declared : list str) (c : ctx) : bool := forallb (registered c) declared.
+
 (* ---------- executable guards of the partial theorem ---------- *)
 (* F08b: the RETURN_EXISTING fall-through was taken somewhere (the schema is parsed a second time, exited
    twice and left NOT_STARTED) *)
